@@ -214,6 +214,10 @@ for _pid, _subs in _STALE6.items():
             _t, _n = _t.replace(_a, _b), _n.replace(_a, _b)
     CLAIMED[_pid] = (_t, _n, _r)
 
+# ninth round
+extend("C18", "reload: after any history in the bound of Set / Remove / SetBatch / RemoveBatch over entries that cover one another, what the real snapshot+persist code wrote to <dir>/local is read back by the real loadInitial / readBlocklists / parseHostFile into exactly the in-memory list, entry for entry (file system and line scanner replaced by a lines-in, lines-out model).")
+extend("C14", "RRSIG check: verifySignature vs the library's RRSIG.Verify with the Ed25519 verifier replaced by a recorder - identical key, signature and signed octets (canonical owner with wildcard restoration for every Labels value, original TTL, lower-cased embedded names, RDATA order, duplicate collapse), acceptance only if the library accepts, refusal of a library-accepted signature only where the signer is no label-wise ancestor of the owner.", "Ed25519 arithmetic is a recording stub with one symbolic verdict; RSA/ECDSA dispatch is outside.")
+
 NA_REASON = "no check registered yet: the solver-based harness for this property is still being built in this session (see DESIGN.md §5 for the plan)"
 def main():
     props = [json.loads(l) for l in open(os.path.join(ROOT, "properties.jsonl"))]
